@@ -12,6 +12,7 @@ correspondence ties the binary64 instance to the Go code.
 import XlModel.Lemmas.NumFmt
 import XlModel.Lemmas.NumFmtSerial
 import XlModel.Lemmas.NumFmtLit
+import XlModel.NumFmtGlue
 
 namespace XlModel.Props.C10
 open XlModel XlModel.NumFmt XlModel.Date XlModel.Date.Impl
@@ -325,7 +326,7 @@ theorem dateOK_of_serial (x : Rat) (s : Bool) (D k : Int) (hD0 : 0 ≤ D) (hk0 :
   have hdec := decode_both x s D k hD0 hk0 hk hx
   unfold dateInOfSerial
   simp only [hdec]
-  refine ⟨?_, ?_, hl⟩
+  refine ⟨?_, ?_, hl, ⟨by simp, by simp⟩⟩
   · rw [timeFOfInstant_eval s D k hk0 hk]
     apply yearOK_of_ge
     have := year_ge_1600 s D hD0
@@ -551,5 +552,131 @@ theorem bignumber_rendered (items : List Tok) (value : Str) (up : Bool) (n : Num
 `k` within half a unit of `|x|·100^pct·10^d` (`round_error_bound_exact`) -/
 theorem exact_layer_fixed (x : Exact.Dec) (pct d : Nat) :
     (Exact.numIn x).fixed pct d = Exact.renderFixed (Exact.scaledRound x pct d) d := rfl
+
+/-! ## Options: LongDatePattern / LongTimePattern behind the system date/time tags -/
+
+/-- totality with options: if the data predicate holds for the inputs, it holds with the nested
+renderings plugged in, so `format` under Options has no panic outcome either -/
+theorem format_total_options (secs : List Sec) (value : Str) (cn : Bool) (n : NumIn) (d : DateIn)
+    (ld lt : Option (List Sec)) (h : DateOK d) :
+    format secs value cn n (applyOptions d ld lt value cn n) ≠ .panic := by
+  obtain ⟨h0, h1, hl, _⟩ := h
+  have hd0 : DateOK { d with sysDate := none, sysTime := none } := ⟨h0, h1, hl, by simp [NestedOK]⟩
+  apply format_ne_panic
+  refine ⟨h0, h1, hl, ?_, ?_⟩
+  · unfold applyOptions
+    cases ld with
+    | none => simp
+    | some s => simp only [Option.map_some]; intro he; exact format_ne_panic s value cn n _ hd0 (Option.some.inj he)
+  · unfold applyOptions
+    cases lt with
+    | none => simp
+    | some s => simp only [Option.map_some]; intro he; exact format_ne_panic s value cn n _ hd0 (Option.some.inj he)
+
+/-- `[$-F800]…` (and x-sysdate, 1010000) as nfp tokenises the bracket -/
+def sysDateTok : Tok := ⟨"CurrencyLanguage", bs "[$-F800]", [⟨"LanguageInfo", ['F','8','0','0'], true⟩]⟩
+
+/-- a cell format that starts with the system long-date tag is rendered by the nested call, whatever
+follows the tag: the result is `format LongDatePattern` on the SAME value and the SAME date system -/
+theorem options_system_tag (rest : List Tok) (value : Str) (ms : Bool) (d : DateIn) (o : Out)
+    (h : d.sysDate = some o) :
+    dateTimeHandler (sysDateTok :: rest) value ms d = o := by
+  unfold dateTimeHandler
+  simp only []
+  have hen : enum (sysDateTok :: rest) = (0, sysDateTok) :: ((List.range (rest.length + 1)).zip (sysDateTok :: rest)).tail := by
+    unfold enum
+    simp [List.range_succ_eq_map]
+  rw [hen]
+  have hc : currencyLanguageO true d.sysTime.isSome sysDateTok.parts [] [] = (.changed true, [], []) := by
+    cases d.sysTime.isSome <;> decide +kernel
+  split <;> (unfold dtLoop; simp [sysDateTok, h] at hc ⊢; simp [hc])
+
+/-! ## glue: cell style → number format id → code → `format` (clause "every number-format code
+(built-in ids, locale variants, arbitrary custom codes)") -/
+
+open XlModel.NumFmt.Glue in
+/-- the literals of isLangNumFmt, langNumFmtFunc*, applyBuiltInNumFmt and the CultureName ordinals
+the resolution model reads -/
+theorem glue_facts_ok :
+    Facts.C10.isLangNumFmtInts = [27, 36, 50, 62, 67, 81] ∧
+    Facts.C10.langEnUSInts = [32, 35, 27, 31, 50, 58] ∧
+    Facts.C10.langEnUSStrs = ["M/d/yy", "h:mm:ss", "", "", ""] ∧
+    Facts.C10.langJaJPInts = [30, 32, 33] ∧ Facts.C10.langKoKRInts = [30, 32, 33] ∧
+    Facts.C10.langZhCNInts = [30, 32, 33] ∧ Facts.C10.langZhTWInts = [30, 32, 33] ∧
+    Facts.C10.applyBuiltInInts = [14, 22] ∧ Facts.C10.applyBuiltInStrs = ["", "%s hh:mm"] ∧
+    Facts.C10.cultureNames = ["CultureNameUnknown", "CultureNameEnUS", "CultureNameJaJP", "CultureNameKoKR",
+      "CultureNameZhCN", "CultureNameZhTW"] := by
+  decide
+
+/-- a cell without a style (index 0) is read as stored -/
+theorem resolve_unstyled (customs : List (Nat × Str)) (id : Nat) (o : Glue.GOpts) :
+    Glue.resolve customs 0 id o = none := by
+  simp [Glue.resolve]
+
+/-- a custom `<numFmt>` with the id wins over every built-in or language code, options included -/
+theorem resolve_custom_first (customs : List (Nat × Str)) (s id : Nat) (o : Glue.GOpts) (c : Str)
+    (hs : s ≠ 0) (hc : customs.lookup id = some c) : Glue.resolve customs s id o = some c := by
+  simp [Glue.resolve, hs, hc]
+
+/-- without a custom code a built-in id resolves to its table code, except that ids 14 and 22 follow
+Options.ShortDatePattern when it is set -/
+theorem resolve_builtin (customs : List (Nat × Str)) (s id : Nat) (o : Glue.GOpts) (c : String)
+    (hs : s ≠ 0) (hc : customs.lookup id = none) (hb : Facts.C10.builtInNumFmt.lookup id = some c) :
+    Glue.resolve customs s id o =
+      some (if o.short ≠ [] then (if id = 14 then o.short else if id = 22 then o.short ++ bs " hh:mm" else bytesOf c)
+            else bytesOf c) := by
+  have h14 : Glue.lit Facts.C10.applyBuiltInInts 0 = 14 := by decide
+  have h22 : Glue.lit Facts.C10.applyBuiltInInts 1 = 22 := by decide
+  have hsf : (Glue.slit Facts.C10.applyBuiltInStrs 1).drop 2 = bs " hh:mm" := by decide +kernel
+  simp only [Glue.resolve, hs, if_false, hc, Glue.builtInCode, hb, Option.map_some, Glue.applyShort, h14, h22, hsf]
+
+/-- an id that is neither custom, nor built-in, nor a language id of the file's culture has no code:
+the stored value is returned (fall-back) -/
+theorem resolve_unknown_raw (customs : List (Nat × Str)) (s id : Nat) (o : Glue.GOpts)
+    (hc : customs.lookup id = none) (hb : Facts.C10.builtInNumFmt.lookup id = none)
+    (hl : Glue.isLangNumFmt id = false ∨ o.culture = 0 ∨ 6 ≤ o.culture) :
+    Glue.resolve customs s id o = none := by
+  unfold Glue.resolve
+  split
+  · rfl
+  · simp only [hc, Glue.builtInCode, hb]
+    rcases hl with hl | hl | hl
+    · simp [hl]
+    · simp [hl]
+    · split
+      · have : ¬ (o.culture = 1 ∨ o.culture = 2 ∨ o.culture = 3 ∨ o.culture = 4 ∨ o.culture = 5) := by omega
+        split <;> simp_all
+      · rfl
+
+/-- id_resolves_to_code: reading a styled cell IS `format` of the resolved code (or the stored value
+when there is none), so every theorem stated over codes covers built-in ids, language ids and custom
+codes alike -/
+theorem id_resolves_to_code (tok : Str → List Sec) (customs : List (Nat × Str)) (s id : Nat) (o : Glue.GOpts)
+    (value : Str) (cn : Bool) (n : NumIn) (d : DateIn) :
+    Glue.formatted tok customs s id o value cn n d =
+      match Glue.resolve customs s id o with
+      | none => .ok value
+      | some code => format (tok code) value cn n d := rfl
+
+/-- totality of formatted reading for every style, id, culture, pattern, tokeniser and value -/
+theorem formatted_total (tok : Str → List Sec) (customs : List (Nat × Str)) (s id : Nat) (o : Glue.GOpts)
+    (value : Str) (cn : Bool) (n : NumIn) (d : DateIn) (h : DateOK d) :
+    Glue.formatted tok customs s id o value cn n d ≠ .panic := by
+  unfold Glue.formatted
+  split
+  · simp
+  · exact format_ne_panic _ _ _ _ _ h
+
+/-- samples over the regenerated tables: id 14 under a short pattern, id 22, a zh-CN language id,
+an EN-US language id with the default pattern, a language id without culture -/
+theorem resolve_samples :
+    Glue.resolve [] 1 14 ⟨0, bs "yyyy/m/d", []⟩ = some (bs "yyyy/m/d") ∧
+    Glue.resolve [] 1 22 ⟨0, bs "yyyy/m/d", []⟩ = some (bs "yyyy/m/d hh:mm") ∧
+    Glue.resolve [] 1 14 ⟨0, [], []⟩ = some (bs "mm-dd-yy") ∧
+    Glue.resolve [] 1 27 ⟨1, [], []⟩ = some (bs "M/d/yy") ∧
+    Glue.resolve [] 1 32 ⟨1, [], bs "hh:mm"⟩ = some (bs "hh:mm") ∧
+    Glue.resolve [] 1 27 ⟨0, [], []⟩ = none ∧
+    Glue.resolve [(14, bs "0.0")] 1 14 ⟨0, bs "yyyy/m/d", []⟩ = some (bs "0.0") := by
+  decide +kernel
 
 end XlModel.Props.C10
